@@ -197,7 +197,7 @@ def main():
     P = props.PROPS[cid]
     os.makedirs(os.path.join(V, 'evidence'), exist_ok=True)
     os.makedirs(os.path.join(V, 'replays'), exist_ok=True)
-    evidence_path = os.path.join(V, 'evidence', cid + '.json')
+    evidence_path = os.path.join(V, 'evidence', cid + os.environ.get('VERIF_EVIDENCE_SUFFIX', '') + '.json')
 
     violations = []   # (kind, replay dict)
     known_lines = []
@@ -369,7 +369,7 @@ def main():
     prof_dirs = [os.path.join(BUILD, 'runs', f'{tree_stamp()[:16]}-{seed}-{tier}', pr['name']) for pr in profiles
                  if pr[tier] > 0 and not pr['name'].startswith('twin:')]
     prof_dirs = [d for d in prof_dirs if os.path.isdir(d)]
-    if prof_dirs:
+    if prof_dirs and os.environ.get('VERIF_INCOQ', '') != '0':
         nsq = int(os.environ.get('VERIF_INCOQ', '12' if tier == 'quick' else '300'))
         key = hashlib.sha1(('|'.join(prof_dirs) + f'|{nsq}').encode()).hexdigest()[:16]
         cache = os.path.join(BUILD, 'incoq', f'{key}.json')
@@ -452,7 +452,26 @@ def main():
                    'replay': f'{BUILD}/runner {keep}  # line {ln}; regenerate with saoh gen --profile {name}'}, open(rp, 'w'), indent=1)
         out_lines.append(f'VIOLATION property={cid} replay={rp}')
         nviol += 1
-    if broken and not unlisted_mon and not halts and not crash:
+    searched = []
+    if broken and not unlisted_mon and not halts and not crash and not os.environ.get('VERIF_NO_SEARCH'):
+        # a proof obligation or the correspondence broke but no monitor failed on the sampled histories: search further
+        # histories (other seeds) of the implementation for a concrete failing input before giving up
+        for extra in range(1, int(os.environ.get('VERIF_SEARCH_ROUNDS', '3')) + 1):
+            s2 = seed + 7919 * extra
+            env = dict(os.environ, VERIF_SEED=str(s2), VERIF_NO_SEARCH='1', VERIF_EVIDENCE_SUFFIX='.search', VERIF_INCOQ='0')
+            rr = subprocess.run(f'python3 {V}/scripts/check.py {cid} --tier {tier}', shell=True, stdout=subprocess.PIPE, stderr=subprocess.STDOUT, text=True, env=env)
+            found = [l for l in rr.stdout.splitlines() if l.startswith('VIOLATION') and not l.rstrip().endswith('no-failing-input-found')]
+            searched.append({'seed': s2, 'found': bool(found)})
+            if found:
+                out_lines.append(found[0])
+                nviol += 1
+                notes.append(f'failing input found by the search at seed {s2} after the obligation broke at seed {seed}')
+                break
+        try:
+            os.remove(os.path.join(V, 'evidence', cid + '.search.json'))
+        except OSError:
+            pass
+    if broken and not unlisted_mon and not halts and not crash and not out_lines:
         rp = os.path.join(V, 'replays', f'{cid}-{seed}-broken.json')
         info = {'property': cid, 'kind': 'proof obligation or correspondence no longer checks',
                 'broken': [{'obligation': o[0], 'detail': o[2]} for o in broken]}
@@ -462,6 +481,7 @@ def main():
                 keep = os.path.join(V, 'replays', f'{cid}-{seed}-h{hi}.sx')
                 shutil.copyfile(hf, keep)
                 info.update({'history_file': keep, 'line': ln, 'mismatch': whatm, 'step': step_of(hf, ln)[:4000]})
+        info['searched'] = searched
         json.dump(info, open(rp, 'w'), indent=1)
         out_lines.append(f'VIOLATION property={cid} replay={rp} no-failing-input-found')
         nviol += len(broken)
